@@ -688,7 +688,12 @@ class Lib:
             rc, v = self.value_create(KIND_UNK)
             if rc == CIF_OK:
                 rc = self.call('cif_value_copy_char', v, U(pv[1]))
-                if rc == CIF_OK and not pv[2]:
+                if rc == CIF_OK and pv[2] == 'try':
+                    # ask for the bare form whatever the text is: the library refuses where no bare form exists
+                    self.call('cif_value_set_quoted', v, 0)
+                    if self.call('cif_value_kind', v) != KIND_CHAR:
+                        rc = -100
+                elif rc == CIF_OK and not pv[2]:
                     rc = self.call('cif_value_set_quoted', v, 0)
                     if rc == CIF_OK and self.call('cif_value_kind', v) != KIND_CHAR:
                         rc = -100   # "?" / "." turned into unknown / n.a.: the caller asked for the impossible
